@@ -30,7 +30,7 @@ Fixpoint lines_f (fuel : nat) (s : list N) : list (list N) :=
     let l1 := match rev l with 10 :: 13 :: t => rev t | 10 :: t => rev t | _ => l end in
     l1 :: lines_f f r end end.
 Definition strip_comment (l : list N) : list N := match split_once l [35] with Some (a, _) => trim a | None => l end.
-Definition strip_spaces (l : list N) : list N := remove_byte 32 l.
+Definition strip_spaces (l : list N) : list N := remove_byte 9 (remove_byte 32 l).     (* spaces, and tabs since the tab fix *)
 Definition line_to_arg (prefix : list N) (l : list N) : list N * option (list N) :=   (* new prefix, argument *)
   let w := strip_spaces (strip_comment l) in
   let prefix' := if starts_with w [91] then remove_byte 93 (remove_byte 91 w) else prefix in
@@ -63,7 +63,7 @@ Definition ORIGV : list N := [82;87;83;95;67;79;78;70;73;71;95;67;79;82;83;95;65
 Example cfg_ok : let e := read_config [112;111;114;116;32;61;32;55;48;48;50;32;35;32;99;10;91;99;111;114;115;93;10;97;108;108;111;119;95;111;114;105;103;105;110;115;32;61;32;91;34;120;34;44;32;39;121;39;93;10] [] in
   env_get PORTV e = Some [55;48;48;50] /\ env_get ORIGV e = Some [120;44;121].
 Proof. vm_compute. auto. Qed.   (* port = 7002 # c \n [cors] \n allow_origins = ["x", 'y'] *)
-Example cfg_tab : env_get PORTV (read_config [112;111;114;116;9;61;9;55;48;48;49;10] []) = None. Proof. vm_compute. reflexivity. Qed.   (* tab-separated: ignored *)
+Example cfg_tab : env_get PORTV (read_config [112;111;114;116;9;61;9;55;48;48;49;10] []) = Some [55;48;48;49]. Proof. vm_compute. reflexivity. Qed.   (* tab-separated: read (was ignored) *)
 
 (* precedence *)
 Lemma env_get_set_same k v e : env_get k (env_set k v e) = Some v.
